@@ -291,7 +291,37 @@ def _mk_changing(first, npre):
         with o.randomize_with() as it:
             vsc.solve_order(it.a, it.b)
     return dict(new=CH, pre=[pre] * npre, call=call, read=lambda o: (int(o.a), int(o.b), int(o.c)), names=['a', 'b', 'c'],
-                doms=[range(4)] * 3, pred=lambda v: v[1] <= v[0] and v[2] >= v[0], uniform=[], same_as='changing/none/0')
+                doms=[range(4)] * 3, pred=lambda v: v[1] <= v[0] and v[2] >= v[0], uniform=['a'], same_as='changing/none/0')
+
+
+def _mk_in_dynamic(how):
+    """the directive lives in a dynamic constraint that the call references (inline or from a static block)"""
+    @vsc.randobj
+    class DY(object):
+        def __init__(self):
+            self.a = vsc.rand_bit_t(2)
+            self.b = vsc.rand_bit_t(2)
+            self.c = vsc.rand_bit_t(2)
+
+        @vsc.dynamic_constraint
+        def dyn(self):
+            vsc.solve_order(self.a, self.b)
+            self.b <= self.a
+
+        @vsc.constraint
+        def cs(self):
+            self.c != 3
+            if how == 'static':
+                self.dyn()
+
+    def call(o):
+        if how == 'inline':
+            with o.randomize_with() as it:
+                it.dyn()
+        else:
+            o.randomize()
+    return dict(new=DY, pre=[], call=call, read=lambda o: (int(o.a), int(o.b), int(o.c)), names=['a', 'b', 'c'],
+                doms=[range(4)] * 3, pred=lambda v: v[1] <= v[0] and v[2] != 3, uniform=['a'])
 
 
 DIRECT = {}
@@ -300,6 +330,8 @@ for _sz in (1, 2):
         DIRECT["list_after/%d/%s" % (_sz, "rev" if _rev else "fwd")] = (_mk_list_after, (_sz, _rev))
 for _sp in (False, True):
     DIRECT["two_groups/%s" % ("split" if _sp else "one_block")] = (_mk_two_groups, (_sp,))
+for _h in ('inline', 'static'):
+    DIRECT["in_dynamic/%s" % _h] = (_mk_in_dynamic, (_h,))
 DIRECT["changing/none/0"] = (_mk_changing, (None, 0))
 for _f in ('c,a', 'b,a', 'b,c'):
     for _n in (1, 2):
